@@ -83,6 +83,10 @@ def r1_mutator_guards(chk: Check):
             if f.qual == "ConfigInformation.__init__":
                 chk.ok(key, loc, "object under construction")
                 continue
+            if f.qual == "TypeConfig.__init__" and base in ("xpm", "self.__xpm__") and any(
+                    isinstance(s2, ast.Assign) and src(s2.targets[0]) == "xpm" and src(s2.value) == "ConfigInformation(self)" for s2 in body_walk(f.node)):
+                chk.ok(key, loc, "object under construction (fresh ConfigInformation)")
+                continue
             if f.qual == "ConfigInformation.load_objects":
                 seal = [n for n in g.live if n.kind == "stmt" and src(n.ast) == "xpminfo._sealed = True"]
                 nodes = g.nodes_of(x) if not isinstance(x, ast.stmt) else [n for n in g.live if n.ast is x]
@@ -116,7 +120,7 @@ def r1_mutator_guards(chk: Check):
                     nb += 1
                     chk.require(f.key in legit, chk.fkey(f, "set(..., bypass=True)"), f"`{f.qual}` assigns a parameter with bypass=True: only {sorted(legit)} may bypass the sealed / read-only checks", chk.loc(f.module, c),
                                 okmsg=legit.get(f.key, ""))
-    chk.min_instances(nb, 5, "set(..., bypass=True) call sites")
+    chk.min_instances(nb, 3, "set(..., bypass=True) call sites")
     # Sealer.postprocess seals after generating
     sp = tree.func("core.objects", "ConfigInformation.seal.Sealer.postprocess")
     gs = CFG(sp.node)
